@@ -72,6 +72,48 @@ def screened(ctx, n_pool, n_keep):
     return [dict(c, fam=c["fam"] + "/screened") for _, c in scored[:n_keep]]
 
 
+def tee_pool(ctx, n, n_keep):
+    """T junctions on the largest grids (an endpoint of the second segment lies strictly inside the first one): the point
+    the real code reports is compared with that endpoint in the orchestrator; pairs where any of the 8 argument orders
+    reports something else are handed to the model checker, worst first. Prioritisation only: SegSegOK (which allows a
+    computed point within 2^-30 x scale of the endpoint, and nothing further away) is evaluated by Apalache."""
+    import random
+    r = random.Random(ctx.seed * 13 + 5)
+    pool = []
+    while len(pool) < n:
+        G = r.choice([1 << 19, 1 << 20])
+        c = ec.rnd_pt(r, G // 2, 2)
+        u = ec.rnd_pt(r, r.choice([1 << 4, 1 << 8, 1 << 11]), 2)
+        if u == [0, 0]:
+            continue
+        k1, k2 = r.randrange(1, 1 << r.choice([2, 5, 8])), r.randrange(1, 1 << r.choice([2, 5, 8]))
+        a = [x - k1 * v for x, v in zip(c, u)]
+        b = [x + k2 * v for x, v in zip(c, u)]
+        e = ec.rnd_pt(r, G, 2)
+        if e == c or max(abs(v) for v in a + b) > 2 * G:
+            continue
+        pool.append(dict(fam="tee/2^20", seg=[a, b, c, e]))
+    obs = vlib.run_driver(ctx, "segseglist", [dict(segs=[c["seg"]]) for c in pool], for_tlc=False)
+    scored, differing = [], 0
+    for c, o in zip(pool, obs):
+        worst = 0.0
+        for row in o.get("rows", []):
+            if row.get("t") != "point" or len(row.get("p", [])) != 1 or any(v["t"] != "num" for v in row["p"][0]):
+                worst = max(worst, 1.0)          # not even a single point: let the model checker look at it
+                continue
+            gx, gy = [ec.parse_exact(v["x"]) for v in row["p"][0]]
+            tx, ty = c["seg"][2]
+            if gx != tx or gy != ty:
+                worst = max(worst, float(max(abs(gx - tx), abs(gy - ty))))
+        if worst > 0:
+            differing += 1
+            scored.append((worst, c))
+    scored.sort(key=lambda t: -t[0])
+    ctx.coverage_extra["tee_pool"] = dict(pool=len(pool), pairs_with_a_row_off_the_endpoint=differing, kept=min(n_keep, len(scored)),
+                                          worst_distance=scored[0][0] if scored else 0)
+    return [dict(c, fam="tee/2^20/screened") for _, c in scored[:n_keep]]
+
+
 PIPES = {"segseg": ec.pipe("segseg"), "segsegx": big_pipe}
 
 
@@ -79,6 +121,7 @@ def run(ctx, verdict):
     ec.family(ctx, verdict, "segseg")
     cases = [c for c in ec.seg_pairs(ctx.seed, 132 if ctx.quick else 900) if c["seg"][2] != c["seg"][3]]
     cases += screened(ctx, 6000 if ctx.quick else 60000, 24 if ctx.quick else 150)
+    cases += tee_pool(ctx, 40000 if ctx.quick else 400000, 12 if ctx.quick else 60)
     vlib.note_cases(ctx, cases)
     big_pipe(ctx, verdict, cases)
     ctx.coverage_extra["big_tier"] = dict(pairs=len(cases), rows=8 * len(cases), grids=[1 << 10, 1 << 16, 1 << 20],
